@@ -458,7 +458,7 @@ def project_stats(rec, stats):
 
 
 def run_traced(description, controller_params, num_procs, u0_fn, t0, Tend, unit=None, script=None, mode='lattice',
-               extra_hooks=(), controller_cls=TracedController, default=None, defect_check=True):
+               extra_hooks=(), controller_cls=TracedController, default=None, defect_check=True, prelude=None):
     """Build a traced controller from a plain description and run it.  Returns (recorder, outcome dict)."""
     global _CURRENT
     import copy
@@ -487,6 +487,16 @@ def run_traced(description, controller_params, num_procs, u0_fn, t0, Tend, unit=
         ctrl = controller_cls(num_procs=num_procs, controller_params=cp, description=desc)
         rec.controller = ctrl
         P = ctrl.MS[0].levels[0].prob
+        if prelude is not None:
+            # an earlier run on the same controller object (recorded into a throw-away recorder)
+            pre = Recorder(t0=prelude['t0'], unit=unit, script=list(prelude['script']), mode=mode)
+            pre.post_step_obs = []
+            pre.default = dict(res=True)
+            pre.defect_check = False
+            pre.controller = ctrl
+            _CURRENT = pre
+            ctrl.run(u0=u0_fn(P), t0=prelude['t0'], Tend=prelude['Tend'])
+            _CURRENT = rec
         u0 = u0_fn(P)
         rec.u0_obj = u0
         h_before = rec.hid(u0)
